@@ -147,6 +147,10 @@ def carr_obj(name, trace_tag=None, length=None, elem='int'):
             (kind, name, a, k)))
     for kind in ('c_align_array', 'remove', 'resize', 'copy_values'):
         c.attrs[kind] = rec(kind)
+    # columns of one element type (the converting copy between columns of
+    # DIFFERENT types is numpy's and is covered by the bounded case `typed`)
+    c.attrs.setdefault('get_c_type', Native(
+        lambda ex, st, a, k, n: 'one_c_type'))
     return c
 
 
@@ -670,6 +674,67 @@ def task_extract(ctx, repo, m):
                 obs.append(Obligation('extract.args.%s.%d.%d' % (align, i_,
                                                                  j), o.pc, g,
                                       W))
+    # a same-named property of ANOTHER element type in the destination:
+    # copy_values casts the source column to the destination's array class
+    # and reinterprets the bytes, so it may only be handed two columns of
+    # one type; otherwise the values go through a converting assignment
+    class _Np(object):
+        def __init__(self, nm):
+            self.nm = nm
+
+        def vc_clone(self, memo, _c=None):
+            return self
+
+        def vc_getattr(self, name, ex, st, node):
+            if name in ('reshape', 'ravel'):
+                return Native(lambda e, s_, a, k, nn: self)
+            raise VCError('numpy stub .%s' % name)
+
+        def vc_getitem(self, idx, ex, st, node):
+            return self
+
+        def vc_setitem(self, idx, v, ex, st, node):
+            st.trace.append(('converted', self.nm, getattr(v, 'nm', None)))
+
+    def typed(nm, ctype):
+        c = carr_obj(nm)
+        c.attrs['get_c_type'] = Native(lambda e, s_, a, k, nn: ctype)
+        c.attrs['get_npy_array'] = Native(lambda e, s_, a, k, nn: _Np(nm))
+        return c
+    try:
+        n, L, nd = z3.Int('n'), z3.Int('n_idx'), z3.Int('n_dest')
+        props = {'x': typed('x', 'float'), 'v': typed('v', 'double')}
+        dprops = {'x': typed('dx', 'double'), 'v': typed('dv', 'double')}
+        obj = pa_self(props, {'v': 3}, n)
+        idx = SymObject(None, dict(length=L, get_npy_array=Native(
+            lambda e, s_, a, k, nn: _Np('indices'))), 'indices')
+        dest = SymObject('ParticleArray', dict(
+            num_real_particles=nd,
+            get_number_of_particles=Native(lambda e, s_, a, k, nn: nd),
+            extend=Native(lambda e, s_, a, k, nn: None),
+            get_carray=Native(lambda e, s_, a, k, nn: dprops[a[0]]),
+            align_particles=Native(lambda e, s_, a, k, nn: None)), 'dest')
+        dest.module = m
+        ex = executor(repo, m, 'extract_particles', contracts={
+            'ParticleArray.get_carray': CalleeContract(
+                lambda e, s_, a, k, nn: a[0].attrs['properties'][a[1]])},
+            externals={'isinstance': lambda e, s_, a, k, nn: True})
+        ex.spec_env['BaseArray'] = 'BaseArray'
+        outs = ex.exec_function(fn, dict(self=obj, indices=idx,
+                                         dest_array=dest, align=False,
+                                         props=None),
+                                State(pc=[n >= 0, L >= 1, nd >= 0]))
+        okt = len(outs) >= 1
+        for o in outs:
+            cv = [t[1] for t in o.state.trace if t[0] == 'copy_values']
+            conv = [t[1] for t in o.state.trace if t[0] == 'converted']
+            okt = okt and cv == ['v'] and conv == ['dx']
+        obs.append(Obligation('extract.columns_of_another_type_are_converted',
+                              [], z3.BoolVal(bool(okt)), W))
+    except VCError as e:
+        obs.append(Obligation('extract.columns_of_another_type_are_converted',
+                              [], z3.BoolVal(False), W,
+                              extra=dict(why=str(e)[:200])))
     for o_ in obs:
         o_.extra = dict(o_.extra or {}, backends=['z3'])
     ctx.prove('extract.copies_whole_rows_to_the_end', obs, use_nf=False,
